@@ -53,6 +53,9 @@ CHECKS.update({
  "C20": l1("fault_enumeration", "§3 C20",
    "deterministic simulation with fault injection: one scripted source error / source panic / spill-disk failure per run at a swept position, seeded schedules; oracle: error surfaces or result complete, no hang, release invariants",
    "One fault per run, position swept by the generator; a fault counts once it fired. From then on the query must end with an error (or the injected panic re-raised) or with the complete expected result; a truncated success, a hang or a foreign panic is a violation; afterwards the C19 release invariants."),
+ "C21": dict(level="fault_enumeration", engine="l1+l2", ref="§3 C21", note=L1_NOTE + " Accounting histories run on the real DiskManager and real temp files; OS write failures come from RLIMIT_FSIZE (EFBIG). The concurrent part runs under L2 (shuttle).",
+   technique="deterministic simulation with fault injection: model-based histories on the real DiskManager with OS write failures (RLIMIT_FSIZE) and limit rejections swept over write positions; IPC round trip through a chunking/Pending-injecting simulated disk under seeded schedules; shuttle schedules for concurrent writers",
+   text="(a) mixed-type batch sequences (views, dictionaries, lists, structs, NULLs, slices, empty batches) x codecs x read-buffer sizes round-trip through the real spill writer/reader on SimDisk with seeded read chunking; (b) create/write/finish/clone/drop/set_limit histories on the real disk manager with EFBIG injected at a generated file size and limit rejections: after every step used_disk_space equals the acknowledged bytes of live files, never exceeds the limit after an admitted write, returns to 0, temp files disappear; (c) 2-3 concurrent writers under shuttle."),
 })
 
 NA = {
@@ -92,7 +95,7 @@ NA = {
  "C51": "pure string functions",
  "C52": "pure string functions",
 }
-PLANNED = ["C21","C25","C26","C31","C40","C50","C53"]
+PLANNED = ["C25","C26","C31","C40","C50","C53"]
 
 def main():
     props = [json.loads(l)["id"] for l in open(os.path.join(ROOT, "properties.jsonl"))]
@@ -134,9 +137,9 @@ def main():
             "add_only": True,
         },
         "engines": [
-            {"name": "l2", "path": "l2/", "serves_properties": [p for p in props if p in CHECKS and CHECKS[p]["engine"] == "l2"],
+            {"name": "l2", "path": "l2/", "serves_properties": [p for p in props if p in CHECKS and "l2" in CHECKS[p]["engine"]],
              "kind_free_text": "sync-point-level deterministic simulator: real DataFusion data structures under shuttle's seeded random/PCT schedulers, parking_lot patched onto shuttle, sync_point hooks at atomics, SimDisk fault injection, recorded schedules as replay files"},
-            {"name": "l1", "path": "l1/", "serves_properties": [p for p in props if p in CHECKS and CHECKS[p]["engine"] == "l1"],
+            {"name": "l1", "path": "l1/", "serves_properties": [p for p in props if p in CHECKS and "l1" in CHECKS[p]["engine"]],
              "kind_free_text": "task-level deterministic simulator: real operators/sessions on a tokio current_thread runtime with paused clock, every spawned task gated by a seeded scheduler through the JoinSetTracer seam, simulated sources/memory neighbour/disk/object store/clock with scripted faults, fork-per-seed isolation"},
         ],
         "checks": checks,
